@@ -144,8 +144,10 @@ func c13(c *Ctx) {
 			reach := an.Explore(fn, nil, nil, func(in ssa.Instruction) bool { return in == ssa.Instruction(target) })
 			bad := ""
 			for _, ret := range reach.Returns() {
-				if reach.EvalAt(ret.Results[0], ret) != an.False {
-					bad = c.InstrPos(ret)
+				for _, alt := range reach.Alts(ret) {
+					if reach.EvalAlt(alt, 0) != an.False {
+						bad = c.InstrPos(ret)
+					}
 				}
 			}
 			r.Check(bad == "", "PATH", sprintf("%s/always-runs/%s#%d", fkey(fn), sn, ordv[sn]), c.InstrPos(cl), "runs before any allowing return", "the request can be allowed (return at "+bad+") without "+sn+" having run: e.g. an update that keeps QoS and priority class but changes resources or labels is no longer checked")
@@ -155,8 +157,10 @@ func c13(c *Ctx) {
 			reach := an.Explore(fn, an.After(agg), an.Facts{agg.Value(): an.NonNil}, nil)
 			bad := false
 			for _, ret := range reach.Returns() {
-				if reach.EvalAt(ret.Results[0], ret) != an.False {
-					bad = true
+				for _, alt := range reach.Alts(ret) {
+					if reach.EvalAlt(alt, 0) != an.False {
+						bad = true
+					}
 				}
 			}
 			r.Check(!bad, "PATH", fkey(fn)+"/error=>denied", c.InstrPos(agg), "any validation error denies the request", "with a non-nil aggregated error the pod can still be allowed")
@@ -493,8 +497,10 @@ func c13shape(c *Ctx) {
 		reach := an.Explore(fn, nil, facts, nil)
 		bad := false
 		for _, ret := range reach.Returns() {
-			if an.IsNilConst(ret.Results[0]) {
-				bad = true
+			for _, alt := range reach.Alts(ret) {
+				if an.IsNilConst(alt.Results[0]) {
+					bad = true
+				}
 			}
 		}
 		r.Check(len(facts) == 2 && !bad, "PATH", fkey(fn)+"/batch-needs-BE", c.Pos(fn.Pos()), "batch resources without QoS BE are rejected", "a pod with non-zero batch CPU and a QoS other than BE can pass")
